@@ -4,6 +4,7 @@
 //! for the real-magnitude amounts).
 //!
 //!   c06 chains < scenarios.ndjson
+//!   c06 dao    < dao-scenarios.ndjson      NervosDAO deposit / prepare / withdraw life cycles (spec/Dao.tla patterns or random)
 //!
 //! scenario: {"id", "wc", "wf", "shift", "epoch_len", "epoch_reward", "fees": [fee of tx 1, ...],
 //!            "blocks": [{"props": [ids], "uprops": [ids], "commits": [ids in order]}, ...], "tail"}
@@ -179,12 +180,345 @@ fn run(sc: &Value) -> Result<Value, String> {
               "ratio": [4, 10], "blocks": recs}))
 }
 
+// ------------------------------------------------------------------------------------------------ NervosDAO life cycles
+/// Consensus whose genesis cellbase carries, at output 2, a typed code cell: its type-script hash is the consensus'
+/// `dao_type_hash`, so a cell typed `{code_hash: dao_type_hash, hash_type: type}` is a NervosDAO cell for the node's
+/// accounting (DaoCalculator, CapacityVerifier).  The code is the always-success binary: the on-chain script accepts
+/// everything, what is judged is the NODE's own accounting (maximum withdraw, fee, DAO field, nothing else mints).
+fn consensus_dao(p: &Params) -> ckb_chain_spec::consensus::Consensus {
+    use ckb_chain_spec::consensus::{build_genesis_epoch_ext, ConsensusBuilder, ProposalWindow};
+    use ckb_types::core::{capacity_bytes, TransactionBuilder};
+    use ckb_types::packed::{CellInput, OutPoint};
+    let (as_cell, as_data, as_lock) = ckb_test_chain_utils::always_success_cell().clone();
+    let code_type = as_lock.clone().as_builder().args(Bytes::from(b"nervosdao".to_vec()).pack()).build();
+    let dao_code_cell = CellOutput::new_builder().capacity(capacity_bytes!(10_000)).lock(as_lock.clone()).type_(Some(code_type).pack()).build();
+    let tx0 = TransactionBuilder::default()
+        .witness(as_lock.clone().into_witness())
+        .input(CellInput::new(OutPoint::null(), 0))
+        .output(as_cell.clone())
+        .output_data(as_data.clone().pack())
+        .output(CellOutput::new_builder().capacity(capacity_bytes!(100)).lock(as_lock.clone()).build())
+        .output_data(Bytes::new().pack())
+        .output(dao_code_cell)
+        .output_data(as_data.pack())
+        .build();
+    let transactions: Vec<TransactionView> = (0..p.genesis_cells as u64)
+        .map(|i| {
+            TransactionBuilder::default()
+                .input(CellInput::new(OutPoint::null(), 0))
+                .output(CellOutput::new_builder().capacity(capacity_bytes!(50_000)).lock(as_lock.clone()).build())
+                .output_data(Bytes::from(i.to_le_bytes().to_vec()).pack())
+                .build()
+        })
+        .collect();
+    let all: Vec<&TransactionView> = std::iter::once(&tx0).chain(transactions.iter()).collect();
+    let dao = ckb_dao_utils::genesis_dao_data(all).unwrap();
+    let genesis_block = BlockBuilder::default()
+        .dao(dao)
+        .compact_target(ckb_types::utilities::DIFF_TWO)
+        .timestamp(GENESIS_TS)
+        .transaction(tx0)
+        .transactions(transactions)
+        .build();
+    let epoch_ext = build_genesis_epoch_ext(Capacity::shannons(p.epoch_reward_ckb * 100_000_000), ckb_types::utilities::DIFF_TWO, p.epoch_len, 8 * p.epoch_len, (1, 40));
+    ConsensusBuilder::new(genesis_block, epoch_ext)
+        .cellbase_maturity(p.cellbase_maturity)
+        .epoch_duration_target(8 * p.epoch_len)
+        .permanent_difficulty_in_dummy(true)
+        .median_time_block_count(p.median_time_block_count)
+        .tx_proposal_window(ProposalWindow(p.window.0, p.window.1))
+        .build()
+}
+
+#[derive(Clone)]
+struct DaoCell {
+    cap: u64,
+    lock: packed::Script,
+    /// plain cell (out-point, capacity) that funds the next step and takes the change
+    purse: (packed::OutPoint, u64),
+    dao_cell: Option<packed::OutPoint>,
+    d: Option<(u64, packed::Byte32)>,
+    p: Option<(u64, packed::Byte32)>,
+}
+
+struct Planned {
+    tx: TransactionView,
+    kind: String,
+    cells: Vec<usize>,
+    /// per NervosDAO input of a phase-2 transaction: what the harness claims (its own arithmetic; judged by the spec)
+    wd: Vec<Value>,
+    plain_in: u64,
+    /// the same transaction creating ONE shannon more (must make the block invalid)
+    over: Option<TransactionView>,
+}
+
+fn ar_of(h: &ckb_types::core::HeaderView) -> u64 {
+    ckb_dao_utils::extract_dao_data(h.dao()).0
+}
+
+fn run_dao(sc: &Value) -> Result<Value, String> {
+    use ckb_types::core::{DepType, ScriptHashType, TransactionBuilder};
+    use ckb_types::packed::{CellDep, CellInput, OutPoint, WitnessArgs};
+    let shift = sc["shift"].as_u64().unwrap() as usize;
+    let tail = sc["tail"].as_u64().unwrap() as usize;
+    let cells_j = sc["cells"].as_array().unwrap();
+    let ops = sc["ops"].as_array().unwrap();
+    let combine = sc["combine"].as_bool().unwrap_or(false);
+    let (wc, wf) = (1u64, 3u64);
+    let p = Params {
+        epoch_len: sc["epoch_len"].as_u64().unwrap(),
+        window: (wc, wf),
+        genesis_cells: cells_j.len(),
+        epoch_reward_ckb: sc["epoch_reward"].as_u64().unwrap(),
+        ..Default::default()
+    };
+    let c = consensus_dao(&p);
+    let node = Node::start(&NodeCfg { assembler: false, ..NodeCfg::temp(&c) });
+    let g = c.genesis_block();
+    let tx0 = g.transactions()[0].hash();
+    let dao_type = packed::Script::new_builder().code_hash(c.dao_type_hash()).hash_type(ScriptHashType::Type).build();
+    let deps = vec![
+        always_success_dep(&c),
+        CellDep::new_builder().out_point(OutPoint::new(tx0, 2)).dep_type(DepType::Code).build(),
+    ];
+    let mut cells: Vec<DaoCell> = cells_j
+        .iter()
+        .enumerate()
+        .map(|(i, j)| DaoCell {
+            cap: j["cap"].as_u64().unwrap(),
+            lock: lock().as_builder().args(Bytes::from(vec![i as u8 + 1; j["args"].as_u64().unwrap() as usize]).pack()).build(),
+            purse: (genesis_cell(&c, i), 50_000u64 * 100_000_000),
+            dao_cell: None,
+            d: None,
+            p: None,
+        })
+        .collect();
+    let fee_of = |kind: &str, i: usize| -> u64 { sc["fees"][kind].get(i).and_then(|x| x.as_u64()).unwrap_or(0) };
+    let dao_out = |cell: &DaoCell, data: [u8; 8]| -> (CellOutput, Bytes) {
+        (CellOutput::new_builder().capacity(Capacity::shannons(cell.cap)).lock(cell.lock.clone()).type_(Some(dao_type.clone()).pack()).build(), Bytes::from(data.to_vec()))
+    };
+    let plain_out = |cap: u64| -> CellOutput { CellOutput::new_builder().capacity(Capacity::shannons(cap)).lock(lock()).build() };
+    let total = shift + 2 * ops.len() + tail;
+    let mut recs = vec![];
+    let (gcap, gocc) = live(&node);
+    recs.push(json!({"n": 0, "dao": dao_json(&g.header().dao()), "live_cap": gcap.to_string(), "live_occ": gocc.to_string()}));
+    let mut pending: Vec<Planned> = vec![];
+    let mut probe_accepted: Option<Value> = None;
+    // a block the calculators / the node refuse although the scenario holds it to be valid: reported, judged by the check
+    let mut refused: Option<Value> = None;
+    for k in 1..=total {
+        let snap = node.shared.cloned_snapshot();
+        let tip = snap.tip_header().clone();
+        // ---- transactions to be committed by block k + 1 (proposed by block k): pattern block i sits at height shift + 2 i
+        let mut next: Vec<Planned> = vec![];
+        if k + 1 > shift && (k + 1 - shift) % 2 == 0 && (k + 1 - shift) / 2 >= 1 && (k + 1 - shift) / 2 <= ops.len() {
+            let row = ops[(k + 1 - shift) / 2 - 1].as_array().unwrap();
+            let mut withdraws: Vec<usize> = vec![];
+            for (i, kind) in row.iter().enumerate() {
+                match kind.as_str().unwrap() {
+                    "deposit" => {
+                        let cell = &cells[i];
+                        let fee = fee_of("deposit", i);
+                        let (o, d) = dao_out(cell, [0u8; 8]);
+                        let change = cell.purse.1 - cell.cap - fee;
+                        let tx = TransactionBuilder::default()
+                            .cell_deps(deps.clone())
+                            .input(CellInput::new(cell.purse.0.clone(), 0))
+                            .output(o).output_data(d.pack())
+                            .output(plain_out(change)).output_data(Bytes::new().pack())
+                            .build();
+                        next.push(Planned { tx, kind: "deposit".into(), cells: vec![i], wd: vec![], plain_in: 0, over: None });
+                    }
+                    "prepare" => {
+                        let cell = &cells[i];
+                        let fee = fee_of("prepare", i);
+                        let (dn, dh) = cell.d.clone().ok_or("prepare before deposit")?;
+                        let (o, d) = dao_out(cell, dn.to_le_bytes());
+                        let tx = TransactionBuilder::default()
+                            .cell_deps(deps.clone())
+                            .header_dep(dh)
+                            .input(CellInput::new(cell.dao_cell.clone().unwrap(), 0))
+                            .input(CellInput::new(cell.purse.0.clone(), 0))
+                            .output(o).output_data(d.pack())
+                            .output(plain_out(cell.purse.1 - fee)).output_data(Bytes::new().pack())
+                            .build();
+                        next.push(Planned { tx, kind: "prepare".into(), cells: vec![i], wd: vec![], plain_in: 0, over: None });
+                    }
+                    "withdraw" => withdraws.push(i),
+                    _ => {}
+                }
+            }
+            // phase 2: one transaction per deposit, or ONE transaction consuming all of them (witness index per input)
+            let groups: Vec<Vec<usize>> = if combine && withdraws.len() > 1 { vec![withdraws.clone()] } else { withdraws.iter().map(|i| vec![*i]).collect() };
+            for grp in groups {
+                let mut hdeps: Vec<packed::Byte32> = vec![];
+                // header deps in an order that is NOT deposit-first: phase-1 headers first, deposits after, reversed per group
+                for i in grp.iter().rev() { hdeps.push(cells[*i].p.clone().ok_or("withdraw before prepare")?.1); }
+                for i in grp.iter() { hdeps.push(cells[*i].d.clone().unwrap().1); }
+                hdeps.dedup();
+                let mut uniq: Vec<packed::Byte32> = vec![];
+                for h in hdeps { if !uniq.contains(&h) { uniq.push(h); } }
+                let mut b = TransactionBuilder::default().cell_deps(deps.clone()).header_deps(uniq.clone());
+                let (mut sum_w, mut plain_in, mut fee) = (0u128, 0u64, 0u64);
+                let mut wd = vec![];
+                let mut witnesses: Vec<packed::Bytes> = vec![];
+                for i in &grp {
+                    let cell = &cells[*i];
+                    let (dn, dh) = cell.d.clone().unwrap();
+                    let (pn, ph) = cell.p.clone().unwrap();
+                    let cm = snap.get_cell(&cell.dao_cell.clone().unwrap()).ok_or("phase-1 cell not live")?;
+                    let occ = cm.occupied_capacity().map_err(|e| e.to_string())?.as_u64();
+                    let (ar_d, ar_w) = (ar_of(&snap.get_block_header(&dh).ok_or("no deposit header")?), ar_of(&snap.get_block_header(&ph).ok_or("no phase-1 header")?));
+                    // the harness' own arithmetic (u128, floor): judged against EconomicsArith!WithdrawAmount by Apalache
+                    let w = ((cell.cap - occ) as u128 * ar_w as u128 / ar_d as u128) as u64 + occ;
+                    sum_w += w as u128;
+                    fee += fee_of("withdraw", *i);
+                    wd.push(json!({"c": i + 1, "cap": cell.cap.to_string(), "occ": occ.to_string(), "arD": ar_d.to_string(), "arW": ar_w.to_string(), "claimed": w.to_string(), "dnum": dn, "pnum": pn}));
+                    let idx = uniq.iter().position(|h| h == &dh).unwrap() as u64;
+                    b = b.input(CellInput::new(cell.dao_cell.clone().unwrap(), 0));
+                    witnesses.push(WitnessArgs::new_builder().input_type(Some(Bytes::from(idx.to_le_bytes().to_vec())).pack()).build().as_bytes().pack());
+                }
+                // the purse of the first deposit of the group joins as a plain input
+                let purse = cells[grp[0]].purse.clone();
+                b = b.input(CellInput::new(purse.0.clone(), 0));
+                witnesses.push(Bytes::new().pack());
+                plain_in += purse.1;
+                let out_cap = sum_w as u64 + plain_in - fee;
+                let tx = b.clone().set_witnesses(witnesses.clone()).output(plain_out(out_cap)).output_data(Bytes::new().pack()).build();
+                let over = b.set_witnesses(witnesses).output(plain_out(sum_w as u64 + plain_in + 1)).output_data(Bytes::new().pack()).build();
+                next.push(Planned { tx, kind: "withdraw".into(), cells: grp.clone(), wd, plain_in, over: Some(over) });
+            }
+        }
+        // ---- block k: commits what was planned one iteration ago, proposes `next`
+        let commits: Vec<TransactionView> = pending.iter().map(|p| p.tx.clone()).collect();
+        let measure = |txs: &[TransactionView]| -> Result<(u128, u128), String> {
+            let (mut freed, mut added) = (0u128, 0u128);
+            for t in txs {
+                for inp in t.inputs() {
+                    let cm = snap.get_cell(&inp.previous_output()).ok_or("input not live")?;
+                    freed += cm.occupied_capacity().map_err(|e| e.to_string())?.as_u64() as u128;
+                }
+                for (o, d) in t.outputs_with_data_iter() {
+                    added += o.occupied_capacity(Capacity::bytes(d.len()).unwrap()).unwrap().as_u64() as u128;
+                }
+            }
+            Ok((freed, added))
+        };
+        let (freed, mut added) = measure(&commits)?;
+        // block k proposes what block k + 1 commits - and the over-paying twin of every phase-2 transaction, so that the
+        // probe block below is refused for its amount and not by the two-step confirmation rule
+        let proposals: Vec<ProposalShortId> =
+            next.iter().flat_map(|p| std::iter::once(p.tx.proposal_short_id()).chain(p.over.iter().map(|o| o.proposal_short_id()))).collect();
+        // probes: the same block with ONE phase-2 transaction creating one shannon more than the maximum withdraw
+        let mut probes = vec![];
+        for (pi, pl) in pending.iter().enumerate() {
+            if let Some(over) = &pl.over {
+                let mut cs = commits.clone();
+                cs[pi] = over.clone();
+                let verdict = match assemble(&node, &BlockSpec { commits: cs, proposals: proposals.clone(), nonce: 5000 + k as u64, ..Default::default() }) {
+                    Err(e) => format!("not-assembled: {e}"),
+                    Ok(pb) => match node.submit_like_miner(&pb) {
+                        Ok(_) => "accepted".to_string(),
+                        Err(e) => format!("rejected: {e}"),
+                    },
+                };
+                probes.push(json!({"cells": pl.cells.iter().map(|i| i + 1).collect::<Vec<_>>(), "verdict": verdict}));
+            }
+        }
+        if probes.iter().any(|p| p["verdict"] == "accepted") {
+            probe_accepted = Some(json!({"block": k, "probes": probes}));
+            break;
+        }
+        let spec = BlockSpec { commits: commits.clone(), proposals, nonce: k as u64, ..Default::default() };
+        let refusal = |stage: &str, e: String| -> Value {
+            json!({"block": k, "stage": stage, "error": e,
+                   "kinds": pending.iter().map(|p| p.kind.clone()).collect::<Vec<_>>(),
+                   "wd": pending.iter().flat_map(|p| p.wd.iter().cloned()).collect::<Vec<_>>()})
+        };
+        let b = match assemble(&node, &spec) {
+            Ok(b) => retag(&b, 1000 + k as u64),
+            Err(e) => { refused = Some(refusal("assemble", e)); break; }
+        };
+        let (tlock, rw) = ckb_reward_calculator::RewardCalculator::new(&c, snap.as_ref()).block_reward_to_finalize(&tip).map_err(|e| e.to_string())?;
+        let target = c.finalize_target(k as u64).unwrap();
+        let cell_occ = CellOutput::new_builder().capacity(rw.total).lock(tlock.clone()).build().occupied_capacity(Capacity::zero()).unwrap();
+        if let Err(e) = node.submit_like_miner(&b) {
+            refused = Some(refusal("submit", e));
+            break;
+        }
+        let cb = &b.transactions()[0];
+        for o in cb.outputs() {
+            added += o.occupied_capacity(Capacity::zero()).unwrap().as_u64() as u128;
+        }
+        let snap2 = node.shared.cloned_snapshot();
+        if snap2.tip_hash() != b.hash() {
+            return Err(format!("block {k} did not become the tip"));
+        }
+        let ext = snap2.get_block_ext(&b.hash()).ok_or("no block ext")?;
+        let ep = snap2.get_block_epoch_index(&b.hash()).and_then(|i| snap2.get_epoch_ext(&i)).ok_or("no epoch ext")?;
+        let (lcap, locc) = live(&node);
+        let cb_cap: u128 = cb.outputs().into_iter().map(|o| { let c: u64 = o.capacity().into(); c as u128 }).sum();
+        // life-cycle bookkeeping of the harness (out-points, heights, header hashes)
+        let mut wds = vec![];
+        let (mut w_plain_in, mut w_out, mut w_fee_obs) = (0u128, 0u128, 0u128);
+        for (pi, pl) in pending.iter().enumerate() {
+            let h = pl.tx.hash();
+            let fee_obs = ext.txs_fees.get(pi).map(|f| f.as_u64()).ok_or("txs_fees shorter than the block")?;
+            match pl.kind.as_str() {
+                "deposit" => {
+                    let i = pl.cells[0];
+                    cells[i].dao_cell = Some(packed::OutPoint::new(h.clone(), 0));
+                    let ch: u64 = pl.tx.outputs().get(1).unwrap().capacity().into();
+                    cells[i].purse = (packed::OutPoint::new(h, 1), ch);
+                    cells[i].d = Some((k as u64, b.hash()));
+                }
+                "prepare" => {
+                    let i = pl.cells[0];
+                    cells[i].dao_cell = Some(packed::OutPoint::new(h.clone(), 0));
+                    let ch: u64 = pl.tx.outputs().get(1).unwrap().capacity().into();
+                    cells[i].purse = (packed::OutPoint::new(h, 1), ch);
+                    cells[i].p = Some((k as u64, b.hash()));
+                }
+                _ => {
+                    wds.extend(pl.wd.iter().cloned());
+                    w_plain_in += pl.plain_in as u128;
+                    let oc: u64 = pl.tx.outputs_capacity().unwrap().as_u64();
+                    w_out += oc as u128;
+                    w_fee_obs += fee_obs as u128;
+                }
+            }
+        }
+        recs.push(json!({
+            "n": k, "props": [], "uprops": [],
+            "commits": pending.iter().enumerate().map(|(pi, pl)| json!({"id": pi + 1, "kind": pl.kind, "cells": pl.cells.iter().map(|i| i + 1).collect::<Vec<_>>(), "fee": ext.txs_fees[pi].as_u64().to_string()})).collect::<Vec<_>>(),
+            "fees_n": ext.txs_fees.len(),
+            "fees_sum": ext.txs_fees.iter().map(|f| f.as_u64() as u128).sum::<u128>().to_string(),
+            "wd": wds, "w_plain_in": w_plain_in.to_string(), "w_out": w_out.to_string(), "w_fee_obs": w_fee_obs.to_string(),
+            "probes": probes,
+            "cb_cap": cb_cap.to_string(), "cb_outputs": cb.outputs().len(),
+            "cb_lock_tag": cb.outputs().get(0).map(|o| tag_of(&o.lock())).unwrap_or(Value::Null),
+            "miner_tag": 1000 + k as u64,
+            "dao": dao_json(&b.header().dao()),
+            "epoch": {"number": ep.number(), "start": ep.start_number(), "len": ep.length(), "base": ep.base_block_reward().as_u64().to_string(), "rem": ep.remainder_reward().as_u64().to_string()},
+            "added": added.to_string(), "freed": freed.to_string(),
+            "live_cap": lcap.to_string(), "live_occ": locc.to_string(),
+            "calc": {"target": target, "total": rw.total.as_u64().to_string(), "primary": rw.primary.as_u64().to_string(),
+                     "secondary": rw.secondary.as_u64().to_string(), "tx_fee": rw.tx_fee.as_u64().to_string(), "proposal_reward": rw.proposal_reward.as_u64().to_string(),
+                     "lock_tag": tag_of(&tlock), "cell_occ": cell_occ.as_u64().to_string()},
+        }));
+        pending = next;
+    }
+    Ok(json!({"scenario": sc["id"], "wc": wc, "wf": wf, "shift": shift, "secondary_epoch": c.secondary_epoch_reward().as_u64().to_string(),
+              "ratio": [4, 10], "blocks": recs, "probe_accepted": probe_accepted, "refused": refused}))
+}
+
 fn main() {
     let ft = ckb_systemtime::faketime();
     ft.set_faketime(GENESIS_TS + 100_000 * BLOCK_INTERVAL_MS);
     let args: Vec<String> = std::env::args().collect();
-    if args.get(1).map(|s| s.as_str()) != Some("chains") {
-        eprintln!("usage: c06 chains < scenarios.ndjson");
+    let mode = args.get(1).map(|s| s.as_str()).unwrap_or("");
+    if mode != "chains" && mode != "dao" {
+        eprintln!("usage: c06 chains|dao < scenarios.ndjson");
         std::process::exit(2);
     }
     let stdin = std::io::stdin();
@@ -193,7 +527,7 @@ fn main() {
     for line in stdin.lock().lines() {
         let line = line.unwrap();
         let sc: Value = match serde_json::from_str(&line) { Ok(v) => v, Err(_) => continue };
-        let r = match run(&sc) { Ok(v) => v, Err(e) => json!({"scenario": sc["id"], "error": e}) };
+        let r = match if mode == "dao" { run_dao(&sc) } else { run(&sc) } { Ok(v) => v, Err(e) => json!({"scenario": sc["id"], "error": e}) };
         let mut out = stdout.lock();
         writeln!(out, "{}", r).unwrap();
         out.flush().unwrap();
